@@ -134,11 +134,10 @@ BOUNDED_TEXT = ("Bounded stand-in only (never counted as proved): the property i
                 "(reason in level_note); that postcondition is evaluated on the real code, compiled with the repository's own toolchain, over the stated finite input space. ")
 _p("C10", probes_quick=["distances_c10"],
    level_text=PROOF_TEXT + "Decides, for all tracks and every metric, the decision skeleton of Track::distances (incompatible attributes are refused with the error the store drops silently, a missing feature class on either side is reported as an error, otherwise at most one result per observation pair, all from the candidate to the other track). The store-level clauses (exactly the valued pairs over the compatible / ready stored tracks, never a track with itself, error stream, owned query leaves the store unchanged) are the bounded stand-in distances_c10 on the real threaded store.",
-   level_note="Track::distances via verbatim extract; the pairwise metric pipeline (itertools::cartesian_product + flat_map over the user metric) is an ASSUMED stand-in. foreign_track_distances/owned_track_distances run in the store's worker threads (crossbeam channels, Arc<Vec<Mutex<HashMap>>>): Kani has no threads and ICEs on TrackStore::new, Verus cannot state the effect on &self: bounded probe only. NOT covered: independence from the worker schedule (no per-call contract quantifies over interleavings) and the pairs among owned candidates themselves, which depend on whether a worker runs before the tracks are put back.",
+   level_note="Track::distances via verbatim extract; the pairwise metric pipeline (itertools::cartesian_product + flat_map over the user metric) is an ASSUMED stand-in. foreign_track_distances/owned_track_distances run in the store's worker threads (crossbeam channels, Arc<Vec<Mutex<HashMap>>>): Kani has no threads and ICEs on TrackStore::new, Verus cannot state the effect on &self: bounded probe only. NOT covered: independence from the worker schedule (no per-call contract quantifies over interleavings); the probe sees whatever schedules occur (that is how D9, the race between the workers and the re-insertion of owned candidates, was found and, after the fix, stays checked).",
    technique="Verus postconditions on the verbatim extract of Track::distances + bounded check of the store queries' postcondition on the real code",
    assumptions=V,
-   not_covered=["schedule independence (multiset equality across worker interleavings)", "results among owned candidates themselves (race between the workers and the re-insertion)",
-                "store-level exactness: bounded probe only"])
+   not_covered=["schedule independence (multiset equality across worker interleavings)", "store-level exactness: bounded probe only"])
 _p("C14", level="other", engine="probe (bounded stand-in)", probes_quick=["nms_c14"],
    level_text=BOUNDED_TEXT + "Decides the contract of nms() - subset of the score/validity filter, decreasing rank, top-ranked kept, no kept box covered above the threshold by a higher-ranked kept box, every dropped box so covered by a kept higher-ranked box, idempotence - for every list of 0..=4 boxes over a 12-box alphabet and 1500 longer lists.",
    level_note="nms(): for-loops with `continue` and .iter().enumerate() are rejected by Verus 0.2026.09.13 (probed), the filter/map/sorted_by pipelines are iterator adapters with closures, and one HashSet operation costs minutes in CBMC (2-box probe: no answer in 420 s). Coverage fractions are computed with the library's own intersection()/area() (their exactness is C08).",
